@@ -1,7 +1,7 @@
 (** Agreement between the definitions regenerated from /repo/x/inflation (Gen/KInflation.v, written by
     tools/gokernel on every run) and the hand-written model (Model/Inflation.v). *)
 From Coq Require Import ZArith List Bool String Lia.
-From Canto Require Import Lib.SdkInt Lib.SdkDec Model.Epochs Model.Inflation Gen.KInflation.
+From Canto Require Import Lib.SdkInt Lib.SdkDec Model.Epochs Model.Inflation Gen.KInflation Gen.AgreeTactics.
 Import ListNotations.
 Open Scope Z_scope.
 
@@ -11,7 +11,11 @@ Open Scope Z_scope.
 Lemma agree_CalculateEpochMintProvision : forall a target c maxvar r period epp bonded,
   gen_CalculateEpochMintProvision a target c maxvar r period epp bonded
   = calc_provision (mkExp a r c target maxvar) (Z.to_N period) epp bonded.
-Proof. reflexivity. Qed.
+Proof.
+  intros; first [ reflexivity
+                | unfold gen_CalculateEpochMintProvision, calc_provision, power_reduction;
+                  cbn [ec_a ec_r ec_c ec_target ec_maxvar]; normalise ].
+Qed.
 
 Lemma agree_CalculateEpochMintProvision_N : forall e (period : N) epp bonded,
   gen_CalculateEpochMintProvision (ec_a e) (ec_target e) (ec_c e) (ec_maxvar e) (ec_r e) (Z.of_N period) epp bonded
@@ -34,7 +38,7 @@ Proof.
   intros. unfold gen_GetProportions, get_proportion.
   destruct (SdkDec.mul _ _) as [p|]; [|reflexivity]. cbn [obind].
   destruct (SdkDec.truncate_int p) as [r|]; [|reflexivity]. cbn [obind].
-  rewrite (Z.leb_antisym r 0). reflexivity.
+  rewrite (Z.leb_antisym r 0). first [ reflexivity | normalise ].
 Qed.
 
 Lemma agree_GetProportions_inputs : gen_GetProportions_inputs = ["arg1.Amount"; "arg2"]%string.
@@ -43,7 +47,7 @@ Proof. reflexivity. Qed.
 (* keeper/hooks.go AfterEpochEnd: the period-boundary condition = Model.Inflation.period_passed *)
 Lemma agree_period_passed : forall n s,
   gen_period_passed n (st_epp s) (st_period s) (st_skipped s) = period_passed n s.
-Proof. reflexivity. Qed.
+Proof. intros; first [ reflexivity | unfold gen_period_passed, period_passed; normalise ]. Qed.
 
 Lemma agree_period_passed_inputs : gen_period_passed_inputs =
   [ "arg2";                                (* epochNumber *)
